@@ -403,7 +403,17 @@ def presence(p):
         return ("present", hit)
     if walked == {b1, b2}:
         return ("absent",)
+    if walked and _same_bucket(p, i1, i2):
+        return ("absent",)  # the two candidate buckets are one and the same, and it was searched
     return None
+
+
+def _same_bucket(p, i1, i2) -> bool:
+    for c in p.conds:
+        a = strip_epochs(c.atom)
+        if a[0] == "cmp" and a[1] in ("==", "!=") and {a[2], a[3]} == {i1, i2} and ((a[1] == "==") == c.truth):
+            return True
+    return False
 
 
 def bin_drops(p, after=0):
